@@ -12,7 +12,8 @@
    job.curOffset, job.tail                          pos (end of the last complete line read), tail (length)
    initJobOffset(continue): seek(min saved offset)  seek_of
    Plugin.PassEvent                                 pass_event (on the LIVE job.offsets, as the code does)
-   stream.put: per-stream SeqID; job.lastEventSeq   seqs, last_seq (0 = EventSeqIDError: event not accepted)
+   stream.put: per-stream SeqID; job.lastEventSeq   seqs, last_seq (SeqID of the last ACCEPTED line: a line for which
+                                                    In returns EventSeqIDError = 0 leaves it alone; 0 = none yet)
    jobProvider.commit                               ACommit (ignoreEventsLE, "offset corruption" panic, Set)
    offsetDB.save (any instant: async; after every   ASave   (jobs without offsets are not written)
      commit: sync)
@@ -20,7 +21,11 @@
    worker.processEOF -> truncateJob                 ATruncate (detected: bytes read > new size)
    events between In and Commit                     flight (in read order; delivered flag)
 
-   lines the pipeline rejects before PassEvent          AReadJunk (only effect: lastEventSeq = EventSeqIDError = 0)
+   lines the pipeline rejects before PassEvent      AReadJunk (empty / undecodable / over max_event_size: In returns
+     (checkInputBytes, decoder error)                 EventSeqIDError; the repaired worker keeps job.lastEventSeq, so
+                                                      the step changes nothing — before the repair it reset it to 0)
+   lines PassEvent rejects (already committed)      ARead, second branch: the reader moves on, In returns
+                                                      EventSeqIDError, job.lastEventSeq is kept as well
 
    Interface taken from C01/C02 (pipeline) and C07 (offsets file): an event is committed after the output
    got it, commits of one stream of one source come in read order, a save writes the live offsets.
@@ -96,7 +101,8 @@ Inductive act :=
 | AAppend (ls : list line) (part : Z)    (* the writer appends complete lines, then [part] bytes of a fragment *)
 | ARead                                  (* the worker hands the next complete line to Pipeline.In *)
 | AReadEOF                               (* the worker reaches EOF: the fragment goes to job.tail *)
-| AReadJunk                              (* the worker hands over an empty / undecodable line: In returns EventSeqIDError *)
+| AReadJunk                              (* the worker hands over an empty / undecodable line: In returns EventSeqIDError,
+                                            job.lastEventSeq keeps the SeqID of the last accepted line *)
 | ADeliver (k : nat)                     (* the output receives the k-th event in flight *)
 | ACommit (k : nat)                      (* Plugin.Commit of the k-th event in flight *)
 | ASave                                  (* offsetDB.save *)
@@ -149,7 +155,7 @@ Definition step (st : state) (a : act) : option state :=
                       (flight st ++ [mkE q l false false]) (set_off (l_stream l) q (seqs st)) q (ign st) false
                       (ever st) (gone st) (out st) (fresh st))
           else
-            Some (upd st (content st) (partial st) (l_end l) 0 (cur st) (disk st) (flight st) (seqs st) 0 (ign st) false
+            Some (upd st (content st) (partial st) (l_end l) 0 (cur st) (disk st) (flight st) (seqs st) (last_seq st) (ign st) false
                       (ever st) (gone st) (out st) (fresh st))
       end
   | AReadEOF =>
@@ -160,7 +166,7 @@ Definition step (st : state) (a : act) : option state :=
       end
   | AReadJunk =>
       Some (upd st (content st) (partial st) (pos st) (tail st) (cur st) (disk st) (flight st) (seqs st)
-                0 (ign st) false (ever st) (gone st) (out st) (fresh st))
+                (last_seq st) (ign st) false (ever st) (gone st) (out st) (fresh st))
   | ADeliver k =>
       match nth_error (flight st) k with
       | Some e =>
@@ -213,8 +219,9 @@ Definition step (st : state) (a : act) : option state :=
   end.
 
 (* admissible histories of the theorems: at a truncation every event of the file still in flight has a SeqID <=
-   job.lastEventSeq (so that truncateJob's ignoreEventsLE really covers it — in particular: nothing in flight), and
-   the process is not killed between a truncation and the next save (the documented loss window) *)
+   job.lastEventSeq (so that truncateJob's ignoreEventsLE really covers it — in particular: nothing in flight; with ONE
+   stream per file it always holds, Proofs: truncate_inflight_single_stream), and the process is not killed between a
+   truncation and the next save (the documented loss window) *)
 Definition trunc_safe (st : state) : bool := forallb (fun e => e_seq e <=? last_seq st) (flight st).
 Definition adm (st : state) (a : act) : bool :=
   match a with
@@ -234,6 +241,15 @@ Fixpoint run_adm (st : state) (acts : list act) : option state :=
   | a :: r => if adm st a then match step st a with Some st' => run_adm st' r | None => None end else None
   end.
 
+(* histories restricted by the kill window only: truncations at ANY instant, whatever is in flight *)
+Definition adm_kill (st : state) (a : act) : bool :=
+  match a with ACrash => fresh st | _ => true end.
+Fixpoint run_kill (st : state) (acts : list act) : option state :=
+  match acts with
+  | [] => Some st
+  | a :: r => if adm_kill st a then match step st a with Some st' => run_kill st' r | None => None end else None
+  end.
+
 Definition act_lines (a : act) : list line :=
   match a with AAppend ls _ => ls | ATruncate ls _ => ls | _ => [] end.
 Definition acts_single (s0 : stream) (acts : list act) : bool :=
@@ -244,7 +260,8 @@ Definition no_truncate (acts : list act) : bool :=
 (* ===================================================================================================
    Exchange glue (harness/c03): the case is a script of file operations and kill/restart phases, the
    observable is what every run delivered and the offsets file it left. See harness/c03/main.go.      *)
-Record lspec := { ls_stream : stream; ls_len : Z; ls_fill : bool (* kind 2: empty lines, dropped by the pipeline *) }.
+Record lspec := { ls_stream : stream; ls_len : Z;
+                  ls_fill : bool (* kind 2: empty lines, kind 3: an undecodable line — dropped by the pipeline *) }.
 Inductive fop :=
 | FAppend (name : Z) (ls : list lspec) (cut : Z)
 | FRename (name to : Z)
@@ -257,7 +274,7 @@ Record world := { files : list wfile; next_id : Z; next_ident : Z }.
 
 Definition lspec_of_sx (s : sx) : option lspec :=
   match s with
-  | SL [SB st; SZ len; SZ kind; SZ _] => Some {| ls_stream := st; ls_len := len; ls_fill := Z.eqb kind 2 |}
+  | SL [SB st; SZ len; SZ kind; SZ _] => Some {| ls_stream := st; ls_len := len; ls_fill := Z.eqb kind 2 || Z.eqb kind 3 |}
   | _ => None
   end.
 Definition fop_of_sx (s : sx) : option fop :=
